@@ -13,15 +13,15 @@ ROOTS = ['discover_db_table', 'verify_db_table']
 def check(run):
     p = run.prog
     roots = [p.fn(r) for r in ROOTS]
-    ief.run_ief(run, 'C08', roots, triage=triage.IEF)
-    run.floor('C08-IEF', run.units['ief_functions_checked'], 150)
+    run.attempt(ief.run_ief, run, 'C08', roots, triage=triage.IEF)
+    run.floor('C08-IEF', run.units.get('ief_functions_checked', 0), 150)
     sh = p.cls('SQLDatabaseHandler')
-    sqlq(run, p, sh)
-    emptyjoin(run, p, sh)
-    total(run, p, sh)
-    exc(run, p, sh)
-    rexflags(run, p)
-    readonly(run, p, roots)
+    run.attempt(sqlq, run, p, sh)
+    run.attempt(emptyjoin, run, p, sh)
+    run.attempt(total, run, p, sh)
+    run.attempt(exc, run, p, sh)
+    run.attempt(rexflags, run, p)
+    run.attempt(readonly, run, p, roots)
     from .common import zero_rule
     n = zero_rule(run, 'C08-ZERO', p, list(sh.methods.values()), {'execute_scalar', 'agg', 'min', 'max', 'len', 'sum'},
                   'zero is a statistic: in the SQL handler a value obtained from execute_scalar() or an aggregate (a minimum length of 0, '
@@ -29,7 +29,7 @@ def check(run):
                   'test would turn "the shortest string is empty" into "no strings"')
     run.floor('C08-ZERO', n, 3)
     from .c07 import agg
-    agg(run, p)
+    run.attempt(agg, run, p)
     from .common import nocache_rule
     nocache_rule(run, 'C08-NOSHARED', p, ['tdda.constraints.db.drivers', 'tdda.constraints.db.constraints', 'tdda.constraints.baseconstraints'],
                  'statistics and column types describe the table at hand: no memoising decorator and no class-level container used as a cache '
